@@ -195,6 +195,14 @@ pub struct SimEvent {
     pub debug_note: Option<String>,
 }
 
+#[cfg(feature = "verif")]
+impl SimEvent {
+    /// The internal (bypass, replace) flags of the event (feature `verif`).
+    pub fn verif_flags(&self) -> (bool, bool) {
+        (self.bypass, self.replace)
+    }
+}
+
 /// Helper function to convert a TriggerEvent to a usize for sorting purposes.
 fn event_to_usize(e: &TriggerEvent) -> usize {
     match e {
